@@ -12,8 +12,8 @@
    offsets, tree reduction by _combine_fornav, _average_fornav).  Theorems with [RO] are over the reals: float32
    accumulation (accum_type / weight_type = float) is NOT covered by them; the correspondence bounds it. *)
 From Coq Require Import Reals ZArith List Lia Lra Bool QArith.
-From PR Require Import Base.Num Base.RNum Base.Imp Model.Grid Model.EWA Gen.GenC08 Gen.GenC08imp Model.C08_run Model.C08_rungen
-     Proofs.Grid_real Proofs.C08_ll2cr Proofs.C08_acc Proofs.C08_dask Proofs.C08_gen Proofs.C08_hist Proofs.C08_imp.
+From PR Require Import Base.Num Base.RNum Base.Slice Base.Imp Model.Grid Model.EWA Gen.GenC08 Gen.GenC08imp Model.C08_run Model.C08_rungen
+     Proofs.Grid_real Proofs.C08_ll2cr Proofs.C08_acc Proofs.C08_dask Proofs.C08_gen Proofs.C08_hist Proofs.C08_imp Proofs.C08_imp_tasks.
 Import ListNotations.
 Open Scope R_scope.
 
@@ -293,6 +293,23 @@ Theorem C08_generated_explicit_rows_per_scan_wins : forall k xr da attr nrows,
   value_of (imp_get_rows_per_scan (Some k) xr da attr nrows) = COk (if (k =? 0)%Z then nrows else k).
 Proof. intros. rewrite get_rows_per_scan_code_is_model. reflexivity. Qed.
 Print Assumptions C08_generated_explicit_rows_per_scan_wins.
+
+(* code is model: [imp_fornav_tasks] is DaskEWAResampler._generate_fornav_dask_tasks translated by tools/py2coq_imp.py from the
+   current source (three nested loops, running y_start / x_start, enumerate over the ll2cr blocks, dict assignment).  For
+   ALL output chunkings and ALL block lists (also lists with blocks left out, as persist=True produces) it returns the
+   dictionary obtained by assigning, in order, the model's tasks: for every block of [out_blocks], one task per ll2cr
+   block, keyed (task name, position z in the list, out_row_idx, out_col_idx) and carrying that block's token, the
+   block's y/x slices and the block's OWN (in_row_idx, in_col_idx).  [dput] = Python dict assignment in order. *)
+Theorem C08_fornav_tasks_code_is_model : forall ych xch blocks tn inp tgt fv kw,
+  value_of (imp_fornav_tasks (ych, xch) blocks tn inp tgt fv kw) = COk (dput [] (tasks_model tn ych xch blocks)).
+Proof. exact fornav_tasks_code_is_model. Qed.
+Print Assumptions C08_fornav_tasks_code_is_model.
+(* non-trivial instance: chunks ((2,3),(4)), two blocks of which the second is input chunk 5 *)
+Example C08_ex_tasks :
+  dput [] (tasks_model 7 [2; 3] [4] [((0, 1, 0), 101); ((0, 5, 0), 105)])%Z =
+  [ ((7, 0, 0, 0), (101, mk_slice 0 2, mk_slice 0 4, (1, 0))); ((7, 1, 0, 0), (105, mk_slice 0 2, mk_slice 0 4, (5, 0)));
+    ((7, 0, 1, 0), (101, mk_slice 2 5, mk_slice 0 4, (1, 0))); ((7, 1, 1, 0), (105, mk_slice 2 5, mk_slice 0 4, (5, 0))) ]%Z.
+Proof. vm_compute. reflexivity. Qed.
 
 Example C08_ex_rows_per_scan : get_rows_per_scan (Some 4%Z) (Some 2%Z) 8%Z = Some 4%Z /\ get_rows_per_scan (Some 0%Z) (Some 2%Z) 8%Z = Some 8%Z.
 Proof. split; reflexivity. Qed.
